@@ -357,3 +357,51 @@ Proof.
     now apply t0102_render_total with ver body.
   - destruct (id =? 256). apply t0100_render_total. discriminate.
 Qed.
+
+(* ------------------------------------------------------------------------------------------ *)
+(* history independence over whole sequences of calls.
+   A receiver is reachable when it is fresh, or the value a successful Parse of a reachable
+   receiver produced, or whatever a FAILING Parse left behind: a failing Parse may have assigned
+   any of the members Parse assigns, but not the never-written ones (config_of). *)
+Ltac bind_inv :=
+  repeat match goal with
+  | |- (if ?c then _ else _) = Ok _ -> _ => destruct c; try discriminate
+  | |- bind ?x _ = Ok _ -> _ => destruct x; cbn [bind]; try discriminate
+  end.
+
+Lemma t1210_hlj_tid r body v : t1210_parse 2 r body = Ok v -> vstr (vnth 0 v) = vstr (vnth 0 r).
+Proof.
+  unfold t1210_parse. change (2 =? 2) with true. cbv iota zeta. change (0 <? 0) with false. cbv iota.
+  cbn [bind]. bind_inv. intros H. apply ok_inj in H. subst v. reflexivity.
+Qed.
+
+Lemma t1212_list r body v : t1212_parse r body = Ok v -> vnth 1 v = vnth 1 r.
+Proof. unfold t1212_parse. bind_inv. intros H. apply ok_inj in H. subst v. reflexivity. Qed.
+
+(* a successful Parse hands the never-written members on unchanged *)
+Lemma config_preserved id gbk ver d r body v :
+  parse_msg id gbk ver d r body = Ok v -> config_of id d v = config_of id d r.
+Proof.
+  intros H. unfold config_of.
+  destruct ((id =? 4624) && (d =? 2)) eqn:A.
+  - apply andb_true_iff in A. destruct A as [A1 A2]. assert (id = 4624) by lia. assert (d = 2) by lia. subst id d.
+    vm_compute in H. fold (t1210_parse 2 r body) in H. now rewrite (t1210_hlj_tid r body v H).
+  - destruct (id =? 4626) eqn:B; [|reflexivity].
+    assert (id = 4626) by lia. subst id. vm_compute in H. fold (t1212_parse r body) in H.
+    now rewrite (t1212_list r body v H).
+Qed.
+
+Lemma reach_config id gbk d r : reach id gbk d r -> config_of id d r = config_of id d (VL []).
+Proof.
+  induction 1 as [|r ver body v _ IH _ E|r r' _ IH E].
+  - reflexivity.
+  - rewrite (config_preserved _ _ _ _ _ _ _ E). exact IH.
+  - now rewrite E.
+Qed.
+
+Theorem parse_msg_history_seq id gbk d r ver body : reach id gbk d r -> ver_ok ver ->
+  parse_msg id gbk ver d r body = parse_msg id gbk ver d (VL []) body.
+Proof.
+  intros Hr Hv. rewrite (parse_msg_history id gbk ver d r body Hv), (parse_msg_history id gbk ver d (VL []) body Hv).
+  now rewrite (reach_config id gbk d r Hr).
+Qed.
